@@ -764,8 +764,15 @@ template<RuleLocal::erule effrule>
 std::vector<int> GridLocalPolynomial::getSubGraph(std::vector<int> const &point) const{
     std::vector<int> graph, p = point;
     std::vector<bool> used(points.getNumIndexes(), false);
-    int max_1d_kids = RuleLocal::getMaxNumKids<effrule>();
+    // the level 1 functions of the semi-local rule are supported on the entire domain and are step-parents of points 3 and 4
+    // getKid() does not list the step-kids (they are not refinement children), but they are descendants for the update here
+    int max_1d_kids = RuleLocal::getMaxNumKids<effrule>() + ((effrule == RuleLocal::erule::semilocalp) ? 1 : 0);
     int max_kids = max_1d_kids * num_dimensions;
+    auto get_kid = [&](int point, int kid_number)->int{
+        if (effrule == RuleLocal::erule::semilocalp and kid_number == max_1d_kids - 1)
+            return (point == 1) ? 4 : ((point == 2) ? 3 : -1);
+        return RuleLocal::getKid<effrule>(point, kid_number);
+    };
 
     std::vector<int> monkey_count(1, 0), monkey_tail;
 
@@ -773,7 +780,7 @@ std::vector<int> GridLocalPolynomial::getSubGraph(std::vector<int> const &point)
         if (monkey_count.back() < max_kids){
             int dim = monkey_count.back() / max_1d_kids;
             monkey_tail.push_back(p[dim]);
-            p[dim] = RuleLocal::getKid<effrule>(monkey_tail.back(), monkey_count.back() % max_1d_kids);
+            p[dim] = get_kid(monkey_tail.back(), monkey_count.back() % max_1d_kids);
             int slot = points.getSlot(p);
             if ((slot == -1) || used[slot]){ // this kid is missing
                 p[dim] = monkey_tail.back();
